@@ -84,6 +84,12 @@ func GenMetricDataN(t *rapid.T, maxRecs int, ambiguousLabels bool, variedUnwrap 
 			{{"a": "b", "b": "a"}, {"ab": "ba"}},
 			{{"a": "", "ab": "x"}, {"a": "abx"}},
 			{{"a": "b", "ab": "a"}, {"a": "bab", "b": ""}},
+			// the same names and the same values, attached the other way round
+			{{"a": "b", "b": "a"}, {"a": "a", "b": "b"}},
+			{{"a": "ab", "ab": "ba", "ba": "a"}, {"a": "ba", "ab": "a", "ba": "ab"}},
+			{{"a": "x", "b": "y"}, {"a": "y", "b": "x"}},
+			// the same pairs split differently between name and value
+			{{"a": "bb"}, {"ab": "b"}},
 		}
 		pair := rapid.SampledFrom(pairs).Draw(t, "pair")
 		d.GroupLabels = []string{"a", "ab", "b", "ba"}
@@ -141,6 +147,8 @@ var rangeTexts = []struct {
 	ns   int64
 }{
 	{"1s", 1e9}, {"2s", 2e9}, {"5s", 5e9}, {"10s", 10e9}, {"500ms", 5e8}, {"1m", 60e9}, {"250ms", 25e7}, {"3s", 3e9},
+	// "everything so far": the window starts before 1970
+	{"60y", 60 * 365 * 24 * 3600e9}, {"2800w", 2800 * 7 * 24 * 3600e9},
 }
 
 // RangeOpts bound the range aggregation generator.
@@ -184,7 +192,10 @@ func GenRange(t *rapid.T, d MetricData, o RangeOpts, unwrap bool) *gen.Metric {
 			}
 		}
 	}
-	r := rapid.SampledFrom(rangeTexts).Draw(t, "range")
+	r := rapid.SampledFrom(rangeTexts[:8]).Draw(t, "range")
+	if rapid.IntRange(0, 9).Draw(t, "huge-range") == 0 {
+		r = rapid.SampledFrom(rangeTexts[8:]).Draw(t, "range-huge")
+	}
 	wide := o.Wide && rapid.IntRange(0, 3).Draw(t, "wide") != 0
 	if wide {
 		r = rangeTexts[5] // 1m
